@@ -105,6 +105,7 @@ def swarm_features(rng, force=None) -> Dict[str, bool]:
         "future_pers": False,     # carve-out 3 (persistent attributes with a future time): only when forced
         "late_start": rng.random() < 0.25,   # time-based/hybrid simulators whose first step is at t>0
         "pers_offset": rng.random() < 0.12,  # replies dated a constant offset after the step
+        "children": rng.random() < 0.1,      # child entities of another model as connection ends
     }
     if force:
         f.update(force)
@@ -224,6 +225,21 @@ def gen_core(seed: int, tier: str = "quick", force=None, transport_mix="mixed",
         "order_seed": rng.choice([None, rng.randrange(1 << 30)]),
         "iteration_cost": rng.choice([0.0, 0.0, 1e-5]),
     }
+    if feats.get("children"):
+        # some connection ends are child entities, which have a model of their own (stubs.child_desc)
+        for s in sims:
+            if rng.random() < 0.6 and not s.get("any_inputs"):
+                s["child"] = True
+        for c in conns:
+            if sims[c["src"]].get("child") and rng.random() < 0.4:
+                c["sc"] = True
+                c["pairs"] = [["c" + p[0], p[1]] for p in c["pairs"]]
+                if c.get("init") is not None:
+                    c["init"] = {"c" + k_: v_ for k_, v_ in c["init"].items()}
+            if sims[c["dst"]].get("child") and rng.random() < 0.5:
+                c["dc"] = True
+                if rng.random() < 0.4:
+                    c["pairs"] = [[p[0], "c" + p[1]] for p in c["pairs"]]
     sc = {"groups": groups, "sims": sims, "conns": conns, "until": until, "config": cfg,
           "feats": {k: v for k, v in feats.items() if v}}
     repair_cycles(sc, rng)
@@ -429,7 +445,9 @@ def gen_config(seed: int, tier: str = "quick") -> Dict[str, Any]:
                     c["init"] = {"c" + k_: v_ for k_, v_ in c["init"].items()}
             if sims[c["dst"]].get("child") and rng.random() < 0.4:
                 c["dc"] = True
-                c["pairs"] = [[p[0], "c" + p[1]] for p in c["pairs"]]
+                if rng.random() < 0.5:
+                    c["pairs"] = [[p[0], "c" + p[1]] for p in c["pairs"]]
+                # (else: an input name that parent and child share)
     illegal = []
     for _ in range(rng.choice([1, 1, 2, 3])):
         a, b = rng.randrange(n), rng.randrange(n)
@@ -466,8 +484,7 @@ def gen_config(seed: int, tier: str = "quick") -> Dict[str, Any]:
                 c["init"] = {ua: "initM"}
         if kids and rng.random() < 0.6:
             # the attribute exists, but in the model of the parent resp. of the child
-            which = rng.choice(["src_child_parent_attr", "src_parent_child_attr",
-                                "dst_child_parent_attr", "dst_parent_child_attr"])
+            which = rng.choice(["src_child_parent_attr", "src_parent_child_attr", "dst_parent_child_attr"])
             ok = True
             c = {"src": a, "se": se, "dst": b, "de": de, "pairs": [[ua, va]], "shift": 0, "weak": False,
                  "illegal_kind": which}
